@@ -422,6 +422,59 @@ func checkVectors(c *Ctx, tag string, seg segment.Segment, m *model.Seg, rng *ra
 			}
 		}
 	}
+	// results held across later searches on the same handle: each list keeps
+	// answering its own query
+	for _, f := range names {
+		vm := m.Vec[f]
+		exSet, exBM := genExcept(rng, m.NumDocs, rng.Intn(5))
+		var held []vecQuery
+		for _, vq := range genQueries(rng, vm, m.NumDocs, true) {
+			if len(vq.q) == vm.Dims && len(held) < 3 {
+				held = append(held, vq)
+			}
+		}
+		idx, err := vs.InterpretVectorIndex(f, true, exBM)
+		if err != nil || idx == nil {
+			r.Fail("vec-open-err", "%s: InterpretVectorIndex(%q): %v", tag, f, err)
+			continue
+		}
+		var lists []segment.VecPostingsList
+		for _, vq := range held {
+			var pl segment.VecPostingsList
+			if vq.filtered {
+				pl, err = idx.SearchWithFilter(vq.q, vq.k, vq.eligible, nil)
+			} else {
+				pl, err = idx.Search(vq.q, vq.k, nil)
+			}
+			if err != nil || pl == nil {
+				r.Fail("vec-search-err", "%s field %q: search: %v", tag, f, err)
+				break
+			}
+			lists = append(lists, pl)
+		}
+		for li, pl := range lists {
+			t := fmt.Sprintf("%s field %q held result %d of %d (k=%d filtered=%v)", tag, f, li+1, len(lists), held[li].k, held[li].filtered)
+			var got []vecPair
+			it := pl.Iterator(nil)
+			for {
+				p, err := it.Next()
+				if err != nil {
+					r.Fail("vec-iter-err", "%s: %v", t, err)
+					break
+				}
+				if p == nil {
+					break
+				}
+				got = append(got, vecPair{p.Number(), p.Score()})
+			}
+			if pl.Count() != uint64(len(got)) {
+				r.Fail("vec-count", "%s: Count %d, iterator yields %d", t, pl.Count(), len(got))
+			}
+			checkVecResult(r, t, vm, exSet, held[li], got, len(vm.Entries) < 1000)
+			r.Inc("vec_results_held_across_searches", 1)
+		}
+		idx.Close()
+	}
 	// fields without vectors and unknown fields give empty results
 	for _, f := range append([]string{"zz_absent"}, m.Fields...) {
 		if m.Vec[f] != nil {
